@@ -54,7 +54,8 @@ add('C16',
 add('C15',
     level='exploration',
     rule='strings/views vs std::string: exhaustive unary + pairwise batteries over {a,b,NUL}^<=4, random strings to length 300 incl. NULs and high-bit chars, random op sequences, to_number of fitting digit strings; sources in exact-size guarded buffers',
-    jobs=[job('strings', 'c15_strings.cpp', args=['--arg', 'prop=C15'], shards={'quick': 8, 'thorough': 16}, hang_is_violation=True)],
+    jobs=[job('strings', 'c15_strings.cpp', args=['--arg', 'prop=C15'], shards={'quick': 8, 'thorough': 16}, hang_is_violation=True),
+          job('strings_unsigned_char', 'c15_strings.cpp', defines=['-funsigned-char'], args=['--arg', 'prop=C15'], shards={'quick': 4, 'thorough': 8}, quick_args=['--scale', '0.3'], hang_is_violation=True)],
     min_evaluations={'quick': 15000, 'thorough': 300000},
     min_counters={'unary_cases': 100, 'binary_cases': 10000, 'to_number_cases': 1000, 'sequence_cases': 1000},
     assumptions=['std::string is the executable reference; compare() is checked against the documented length-first order',
@@ -161,7 +162,9 @@ add('C04', level='fault_enumeration',
 add('C19',
     level='exploration',
     rule='printf: full directive grid {d,i,u,o,x,X,c,s,p,%} x flag subsets x width x precision x length x boundary values + random multi-directive and positional formats, byte-compared with glibc vsnprintf (C locale) through an exact-size va_list; fmt(): spec grid + random specs vs an independent interpreter of the documented grammar; stack_buffer_logger: Limit in {2,3,8,128} x lengths 0..3*Limit+2',
-    jobs=[job('format', 'c19_format.cpp', shards={'quick': 8, 'thorough': 16}, hang_is_violation=True)],
+    jobs=[job('format', 'c19_format.cpp', shards={'quick': 8, 'thorough': 16}, hang_is_violation=True),
+          # targets whose plain char is unsigned (AArch64, RISC-V, PowerPC; here: -funsigned-char): hh/char handling must not lean on the host's signedness
+          job('format_unsigned_char', 'c19_format.cpp', defines=['-funsigned-char'], shards={'quick': 4, 'thorough': 8}, quick_args=['--scale', '0.3'], hang_is_violation=True)],
     min_evaluations={'quick': 20000, 'thorough': 200000},
     min_counters={'printf_directives_compared': 300000, 'fmt_specs_compared': 5000, 'logger_messages': 1000},
     assumptions=['glibc 2.36 vsnprintf in the "C" locale is the executable reference for ISO C printf (so the \' flag has no effect); %p is compared in frigg\'s documented 0x<hex> form, which glibc also prints for non-null pointers',
@@ -176,6 +179,7 @@ add('C20',
     jobs=[job('parsers', 'c20_parsers.cpp', shards={'quick': 8, 'thorough': 16}, hang_is_violation=True),
           # the kernel/freestanding configuration of printf.hpp (no long double): code under the macro is code too
           job('parsers_no_long_double', 'c20_parsers.cpp', defines=['-DFRG_DONT_USE_LONG_DOUBLE'], shards={'quick': 4, 'thorough': 8}, quick_args=['--scale', '0.3'], hang_is_violation=True),
+          job('parsers_unsigned_char', 'c20_parsers.cpp', defines=['-funsigned-char'], shards={'quick': 4, 'thorough': 8}, quick_args=['--scale', '0.3'], hang_is_violation=True),
           job('fuzz', 'fuzz_parsers.cpp', flavour='fuzz', tiers=('thorough',), shards={'thorough': 12}, fuzz_runs={'thorough': 1000000}, dict='fuzz_parsers.dict', max_len=192, timeout=3000)],
     min_evaluations={'quick': 300000, 'thorough': 3000000},
     min_counters={'printf_completed': 50000, 'printf_stopped_by_assertion': 10000, 'fmt_completed': 50000, 'cmdline_completed': 50000, 'cmdline_stopped_by_assertion': 100, 'to_number_value': 10000, 'to_number_null': 10000, 'printf_long_number_cases': 500},
